@@ -27,6 +27,13 @@ def variants(rng, atoms_counts, k):
         else:
             # a multiple of an (inspected) operand plus the rest: 2 * (half of everything)
             out.append(["mul", 2, ["seq", [[x[0] / 2.0, x[1]] for x in items]]])
+    if len(base) >= 2:
+        # a group inside a multiplied group ((Ca3(PO4)2)2 against Ca6P4O16): every enclosing multiplier applies
+        items = list(base)
+        rng.shuffle(items)
+        cut = rng.randint(1, len(items) - 1)
+        inner = [[x[0] / 8.0, x[1]] for x in items[cut:]]
+        out.append(["seq", [[2, [[x[0] / 2.0, x[1]] for x in items[:cut]] + [[4, inner]]]]])
     # one of the variants has been saved and restored (pickle / deepcopy): it is still the same formula
     j = rng.randrange(len(out))
     out[j] = [rng.choice(["deepcopy", "pickle"]), out[j]]
